@@ -192,6 +192,74 @@ theorem fair_queued_task_started (X : Exec) (hf : X.Fair) {N : Nat} (hc : X.Call
           obtain ⟨m', hm', h⟩ := ih (m + 1) (by omega) (by omega) hq1
           exact ⟨m', by omega, h⟩
 
+/-- events and start state of the non-vacuity example below -/
+def exEvents : List Event := [.killPass 0, .pop 0 7, .finish 0, .killPass 0, .popNone 0, .regIdle 0, .wLock 0, .readQ 0,
+  .readKill 0, .wWait 0]
+
+def exStart : State := ⟨[.head], [7], [7], [], 0, 0, 0, 0, 0⟩
+
+def exExec : Exec := Exec.ofList exStart ⟨[.swcSet 1, .aPush 7, .aLock, .aSignal none], rfl⟩ exEvents
+
+/-- not vacuous: one worker, task 7 queued, its AddTask finished; the execution attempts the worker's ten
+    steps (kill check, pop, return, …, Wait) and then rests in a state without enabled internal event: it is
+    fair, makes no call, and the pop is taken at tick 1 -/
+example : ∃ (X : Exec) (N : Nat), X.Fair ∧ X.CallsStopAt N ∧ (X.C N).queue ≠ [] ∧ X.took isPop 1 := by
+  refine ⟨exExec, 0, ?_, ?_, by decide, ⟨.pop 0 7, rfl, rfl, by decide⟩⟩
+  · intro n hen
+    rcases Nat.lt_or_ge n 10 with hlt | hge
+    · -- before the list is exhausted: the event of this tick is internal and succeeds
+      refine ⟨n, Nat.le_refl n, ?_⟩
+      have : n = 0 ∨ n = 1 ∨ n = 2 ∨ n = 3 ∨ n = 4 ∨ n = 5 ∨ n = 6 ∨ n = 7 ∨ n = 8 ∨ n = 9 := by omega
+      rcases this with h | h | h | h | h | h | h | h | h | h <;> subst h <;>
+        exact ⟨_, rfl, rfl, by decide⟩
+    · -- afterwards the execution rests where nothing internal is enabled
+      exfalso
+      have hrest : exExec.C n = execC exStart exEvents 10 := execC_rest exStart exEvents n hge
+      rw [hrest] at hen
+      revert hen
+      unfold enabledInternal
+      decide
+  · intro n _ e he
+    rcases Nat.lt_or_ge n 10 with hlt | hge
+    · have : n = 0 ∨ n = 1 ∨ n = 2 ∨ n = 3 ∨ n = 4 ∨ n = 5 ∨ n = 6 ∨ n = 7 ∨ n = 8 ∨ n = 9 := by omega
+      rcases this with h | h | h | h | h | h | h | h | h | h <;> subst h <;>
+        (simp [exExec, Exec.ofList, exEvents] at he; subst he; left; rfl)
+    · have : exEvents[n]? = none := List.getElem?_eq_none hge
+      simp [exExec, Exec.ofList, this] at he
+
+/-- **FIFO: tasks are started in the order in which they were queued** (`DefaultTaskQueue`). In a run in
+    which every pop takes the task at the head of the queue (`fifoFrom`; this is what the trace validator
+    checks on every recorded pop of the real `DefaultTaskQueue`), the tasks started during the run, in order,
+    followed by what is still queued, are exactly the tasks queued at the start followed by the tasks pushed
+    during the run, in order. In particular the task at position `k` of the queue is the one taken by the
+    `(k+1)`-th pop: with `fair_queued_task_started` (each next pop happens under fairness) EVERY queued task
+    is started, not just some. (engine.TaskQueue is not FIFO: no such statement for it.) -/
+theorem fifo_started_in_order {s s' : State} {es : List Event} (h : runFrom repaired s es = some s')
+    (hf : fifoFrom s es) :
+    s.queue ++ pushedOf es = poppedOf es ++ s'.queue ∧
+    ∀ k t, s.queue[k]? = some t → k < (poppedOf es).length → (poppedOf es)[k]? = some t := by
+  have heq := fifo_queue_eq h hf
+  refine ⟨heq, ?_⟩
+  intro k t hk hlen
+  have h1 : (s.queue ++ pushedOf es)[k]? = some t := by
+    have hlt : k < s.queue.length := by
+      rcases Nat.lt_or_ge k s.queue.length with h' | h'
+      · exact h'
+      · simp [List.getElem?_eq_none h'] at hk
+    rw [List.getElem?_append_left hlt]; exact hk
+  rw [heq, List.getElem?_append_left hlen] at h1
+  exact h1
+
+/-- not vacuous: two queued tasks, a third pushed while the first runs; the pops take 1, 2, 3 in this order -/
+example : ∃ s s', Reachable repaired s ∧ s.queue = [1, 2] ∧
+    runFrom repaired s [.killPass 0, .pop 0 1, .aPush 3, .finish 0, .killPass 0, .pop 0 2, .finish 0, .killPass 0,
+      .pop 0 3] = some s' ∧
+    fifoFrom s [.killPass 0, .pop 0 1, .aPush 3, .finish 0, .killPass 0, .pop 0 2, .finish 0, .killPass 0, .pop 0 3] ∧
+    poppedOf [.killPass 0, .pop 0 1, .aPush 3, .finish 0, .killPass 0, .pop 0 2, .finish 0, .killPass 0, .pop 0 3]
+      = [1, 2, 3] := by
+  refine ⟨_, _, ⟨[.swcSet 1, .aPush 1, .aPush 2], rfl⟩, by decide, rfl, ?_, by decide⟩
+  simp [fifoFrom, step, repaired, State.goto, init, State.live, clive, cntOf, PC.cls]
+
 /-- **Resizing converges.** No reachable state has a pending kill request (`workerKill > 0`) while
     every remaining worker is parked: as long as `workerKill > 0` and a worker has not been told to
     exit, a pool-internal step other than the return of a task is enabled, or every such worker is
